@@ -108,6 +108,134 @@ def dot(row, v):
 
 
 # ------------------------------------------------------------------------------------------
+# matrices at the boundary of the library's own CLASSIFIERS.  pixman-matrix.c classifies matrices with
+# epsilon-tolerant comparisons (within_epsilon, IS_SAME / IS_ZERO / IS_ONE / IS_UNIT / IS_INT, EPSILON = 2 raw
+# units) in is_identity, is_scale, is_int_translate, is_inverse.  Code that branches on such a predicate
+# treats matrices up to 2 units off a class like members of it; the generators below therefore produce,
+# for every class, members and matrices 1, 2 and 3 units away on each entry, with small AND large
+# translations / scales, and feed them to invert, multiply, scale/rotate/translate, the predicates, ...
+
+T_SMALL = [0, ONE, -3 * ONE, 5 * ONE, 100 * ONE]
+T_LARGE = [1000 * ONE, -5000 * ONE, 12345 * ONE, 30000 * ONE, -20000 * ONE, 32767 * ONE, -32767 * ONE, -32768 * ONE + ONE]
+
+
+def class_bases():
+    """members of the classes: (name, matrix)"""
+    res = []
+    for tx, ty in [(3 * ONE, -2 * ONE), (30000 * ONE, 100 * ONE), (-20000 * ONE, 32767 * ONE), (0, 0)]:
+        res.append(("int_translate", [ONE, 0, tx, 0, ONE, ty, 0, 0, ONE]))
+    for sx, sy in [(2 * ONE, 32768), (1000 * ONE, -ONE), (ONE, ONE), (3, 32767 * ONE), (-3 * ONE, 100 * ONE)]:
+        res.append(("scale", [sx, 0, 0, 0, sy, 0, 0, 0, ONE]))
+        res.append(("scale_t", [sx, 0, 30000 * ONE, 0, sy, -5 * ONE, 0, 0, ONE]))
+    for d in [ONE, 2 * ONE, -ONE, 3]:
+        res.append(("identity", [d, 0, 0, 0, d, 0, 0, 0, d]))
+    for tx, ty in [(0, 0), (-12345 * ONE, 7 * ONE)]:
+        res.append(("unit", [0, -ONE, tx, ONE, 0, ty, 0, 0, ONE]))      # IS_UNIT entries: rotation by 90 degrees
+        res.append(("unit", [-ONE, 0, tx, 0, ONE, ty, 0, 0, ONE]))      # flip
+    return res
+
+
+def class_sweep():
+    """every base, every entry, every distance -3..3 from the class"""
+    res = []
+    for name, b in class_bases():
+        for i in range(9):
+            for d in (-3, -2, -1, 0, 1, 2, 3):
+                if d == 0 and i:
+                    continue
+                m = list(b)
+                m[i] = clamp(m[i] + d)
+                res.append(m)
+    return res
+
+
+def near_class(rng):
+    """a matrix at distance 0..3 raw units (on one to three entries) from a class member with random small/large offsets"""
+    c = rng.choice(["int_translate", "int_translate", "scale", "identity", "unit", "affine_int"])
+    t = lambda: rng.choice(T_SMALL + T_LARGE + [rng.randint(-32767, 32767) * ONE])
+    if c == "int_translate":
+        m = [ONE, 0, t(), 0, ONE, t(), 0, 0, ONE]
+    elif c == "scale":
+        sc = lambda: rng.choice([ONE, 2 * ONE, 32768, -ONE, 3, -3, 1000 * ONE, 32767 * ONE, rng.randint(-64, 64) * ONE or ONE])
+        m = [sc(), 0, rng.choice([0, 0, t()]), 0, sc(), rng.choice([0, 0, t()]), 0, 0, rng.choice([ONE, ONE, sc()])]
+    elif c == "identity":
+        d = rng.choice([ONE, ONE, 2 * ONE, -ONE, 3, 100])
+        m = [d, 0, 0, 0, d, 0, 0, 0, d]
+    elif c == "unit":
+        a, b, cc, dd = rng.choice([(0, -ONE, ONE, 0), (0, ONE, -ONE, 0), (-ONE, 0, 0, ONE), (ONE, 0, 0, -ONE), (-ONE, 0, 0, -ONE)])
+        m = [a, b, t(), cc, dd, t(), 0, 0, ONE]
+    else:
+        m = [rng.randint(-4, 4) * ONE or ONE, rng.randint(-2, 2) * ONE, t(), rng.randint(-2, 2) * ONE, rng.randint(-4, 4) * ONE or ONE, t(), 0, 0, ONE]
+    for _ in range(rng.choice([0, 1, 1, 1, 2, 3])):
+        i = rng.randrange(9)
+        m[i] = clamp(m[i] + rng.choice([-3, -2, -1, 1, 2, 3]))
+    return m
+
+
+def class_inverse_guess(m):
+    """the exact inverse of the nearest class member where it is obvious (for is_inverse / multiply pairs)"""
+    a, b, tx, c, d, ty = [int(round(x / ONE)) for x in m[:6]]
+    det = a * d - b * c
+    if det in (1, -1):
+        ia, ib, ic, id_ = d * det, -b * det, -c * det, a * det
+        return [ia * ONE, ib * ONE, clamp(-(ia * tx + ib * ty) * ONE), ic * ONE, id_ * ONE, clamp(-(ic * tx + id_ * ty) * ONE), 0, 0, ONE]
+    return None
+
+
+def gen_class(rng):
+    """a call on a classifier-boundary matrix"""
+    m = near_class(rng)
+    ms = " ".join(map(str, m))
+    k = rng.choice(["invert", "invert", "invert", "is", "is", "is_inverse", "multiply", "xform", "point", "bounds"])
+    if k == "invert":
+        return "invert %s %d" % (ms, rng.choice([0, 1]))
+    if k == "is":
+        return "is %s %s" % (rng.choice(["identity", "scale", "int_translate"]), ms)
+    inv = class_inverse_guess(m) or near_class(rng)
+    if rng.random() < 0.4:
+        i = rng.randrange(9)
+        inv[i] = clamp(inv[i] + rng.choice([-3, -2, -1, 1, 2, 3]))
+    if k == "is_inverse":
+        return "is inverse %s %s" % (ms, " ".join(map(str, inv)))
+    if k == "multiply":
+        a, b = (m, inv) if rng.random() < 0.5 else (inv, m)
+        return "multiply %s %s %d" % (" ".join(map(str, a)), " ".join(map(str, b)), rng.choice([0, 1, 2]))
+    if k == "xform":
+        fn = rng.choice(["scale", "rotate", "translate"])
+        p, q = {"scale": (rng.choice([ONE, ONE + 1, ONE - 2, 2 * ONE, 3, 32768]), rng.choice([ONE, ONE + 2, -ONE, 65537])),
+                "rotate": (rng.choice([ONE, 0, ONE - 1, 2]), rng.choice([0, 1, -2, ONE, ONE + 1])),
+                "translate": (rng.choice(T_SMALL + T_LARGE) + rng.choice([0, 1, -2, 3]), rng.choice(T_SMALL + T_LARGE))}[fn]
+        return "%s 1 1 %s %s %d %d" % (fn, ms, " ".join(map(str, inv)), clamp(p), clamp(q))
+    if k == "point":
+        v = [rng.choice(T_SMALL + T_LARGE) + rng.choice([0, 1, 32768]), rng.choice(T_SMALL + T_LARGE), rng.choice([ONE, ONE, ONE + 1, ONE - 2])]
+        return "point %s %s" % (ms, " ".join(map(str, v)))
+    return "bounds %s %s" % (ms, " ".join(str(i16(rng)) for _ in range(4)))
+
+
+def class_sweep_calls(rng, quick):
+    """the systematic part: invert on the whole sweep; the predicates and products on it (sampled in the quick tier)"""
+    sw = class_sweep()
+    inv = sw
+    if quick:      # the translation and unit classes completely, the others sampled
+        core = [m for m in sw if abs(m[0]) in range(ONE - 3, ONE + 4) or abs(m[1]) in range(ONE - 3, ONE + 4)]
+        rest = [m for m in sw if m not in core]
+        inv = core + rng.sample(rest, min(len(rest), 250))
+    calls = ["invert %s 0" % " ".join(map(str, m)) for m in inv]
+    others = []
+    for m in sw:
+        ms = " ".join(map(str, m))
+        for kind in ("identity", "scale", "int_translate"):
+            others.append("is %s %s" % (kind, ms))
+        inv = class_inverse_guess(m)
+        if inv:
+            others.append("is inverse %s %s" % (ms, " ".join(map(str, inv))))
+            others.append("multiply %s %s 0" % (ms, " ".join(map(str, inv))))
+    if quick:
+        others = rng.sample(others, min(len(others), 500))
+    return calls + others
+
+
+# ------------------------------------------------------------------------------------------
 # transform_point / point_3d
 
 W_TARGETS = [1, -1, 2, -2, 3, 65536, -65536, 2 ** 32 - 1, 2 ** 32, 2 ** 32 + 1, -2 ** 32, -2 ** 32 + 1, 2 ** 47, -2 ** 47,
@@ -495,7 +623,7 @@ def gen_f(rng):
     return "f_bounds %s %s" % (" ".join(map(dh, m)), " ".join(map(str, box)))
 
 
-GENERATORS = [(gen_point, 26), (gen_point3d, 10), (gen_multiply, 14), (gen_xform, 12), (gen_init, 2), (gen_bounds, 8),
+GENERATORS = [(gen_class, 16), (gen_point, 26), (gen_point3d, 10), (gen_multiply, 14), (gen_xform, 12), (gen_init, 2), (gen_bounds, 8),
               (gen_invert, 8), (gen_from_f, 5), (gen_to_f, 2), (gen_is, 4), (gen_f, 9)]
 
 
@@ -531,9 +659,9 @@ def tlc_inputs(nbeh, depth, seed):
 
 def mc(chk, tier):
     base = os.path.join(vf.SPEC, "mc")
-    runs = [("BigIntMC.tla", "BigIntMC.cfg", False), ("BigIntMC.tla", "BigIntMC_big.cfg", False),
+    runs = [("MatrixMC.tla", "MatrixMC.cfg", False),
+            ("BigIntMC.tla", "BigIntMC.cfg", False), ("BigIntMC.tla", "BigIntMC_big.cfg", False),
             ("BigIntMC.tla", "BigIntMC_neg_mul.cfg", True), ("BigIntMC.tla", "BigIntMC_neg_add.cfg", True),
-            ("MatrixMC.tla", "MatrixMC.cfg", False),
             ("MatrixMC.tla", "MatrixMC_neg_wrap.cfg", True), ("MatrixMC.tla", "MatrixMC_neg_trunc.cfg", True),
             ("MatrixMC.tla", "MatrixMC_neg_perterm.cfg", True), ("MatrixMC.tla", "MatrixMC_neg_boundsceil.cfg", True),
             ("MatrixMC.tla", "MatrixMC_neg_recipwrap.cfg", True), ("MatrixMC.tla", "MatrixMC_neg_nofalse.cfg", True)]
@@ -543,7 +671,8 @@ def mc(chk, tier):
 
     def one(x):
         mod, cfg, neg = x
-        return x, vf.tlc_mc(os.path.join(base, mod), cfg=os.path.join(base, cfg), workers=4, timeout=1500, expect_violation=neg)
+        return x, vf.tlc_mc(os.path.join(base, mod), cfg=os.path.join(base, cfg), workers=8 if cfg.startswith("MatrixMC.") or "wide" in cfg else 4,
+                            timeout=2400, expect_violation=neg)
 
     with ThreadPoolExecutor(max_workers=3) as ex:      # 3 x 4 TLC workers
         results = list(ex.map(one, runs))
@@ -633,7 +762,10 @@ def run(prop, args):
         "scale 0 1 %s %s 0 5" % (" ".join(map(str, ID9)), " ".join(map(str, ID9))),
         "invert 305419896 591751048 878082202 267242408 517782168 768321926 286331152 554766608 823202064 0",   # singular, TRUE
     ]
-    calls += random_calls(rng, 2500 if quick else 40000)
+    sweep = class_sweep_calls(rng, quick)          # matrices at and 1..3 units off every classifier class
+    chk.extra["classifier_boundary_calls"] = len(sweep)
+    calls += sweep
+    calls += random_calls(rng, 2200 if quick else 40000)
     rng.shuffle(calls)
     chk.extra["calls"] = len(calls)
 
